@@ -229,6 +229,24 @@ def gen_heavy(rng, cid, size):
     position, one sketch per position: the purge's sample (the first L active slots in table order) then consists of
     equal counters while a larger counter may sit in the unsampled part of the table"""
     cap = max(size, 8) * 3 // 4
+    if rng.random() < 0.5:
+        # skewed variant: a fifth to two fifths of the cap+1 items are heavy, a fresh item set per sketch: the single purge
+        # must subtract (an estimate of) the median counter, which is light, or maximum_error exceeds epsilon * N
+        nsk = 7
+        ops = [(0, [i, size]) for i in range(nsk)]
+        dom = []
+        w = rng.choice([1, 1, 2])
+        heavy = w * rng.choice([100, 1000])
+        for i in range(nsk):
+            its = fresh_items(rng, cap + 1, rng.choice(["small", "random"]))
+            every = rng.choice([3, 4, 5])
+            off = rng.randrange(every)
+            for j, x in enumerate(its):
+                ops.append((1, [i, x, heavy if j % every == off else w, h(x)]))
+            ops.append((3, [i]))
+            dom += its[:3] + its[-2:]
+        ops += final_ops(rng, list(range(nsk)), dom, [31337])
+        return Case(cid, [], ops, tag="fi-skew-%d" % size)
     items = fresh_items(rng, cap + 1, rng.choice(["small", "random"]))
     w = rng.choice([1, 1, 3])
     heavy = w + rng.choice([1, 24, 1000])
@@ -1241,7 +1259,7 @@ def gen(rng, tier, n=None, focus=None):
     plan += [("single", 1, rng.choice(KINDS)), ("single", 2, "distinct"), ("single", 4, rng.choice(["uniform", "zipf"])),
              ("merge", [4, 2, 8], None), ("d6", 4, None),
              ("merge", [8, 256], None), ("merge", [2, 64, 16], None)]     # small receivers, bigger (grown) partners
-    plan += [("heavy", 8, None), ("heavy", rng.choice([16, 32, 64, 128]), None)]
+    plan += [("heavy", 8, None), ("heavy", rng.choice([16, 32, 64, 128]), None), ("heavy", rng.choice([16, 32]), None), ("heavy", rng.choice([16, 64]), None)]
     plan += [("images", None, None), ("badnew", None, None), ("strings", None, None), ("strings", None, None)]
     plan += [("eps2048", False, None), ("eps2048", True, None)]
     nskel = len(plan)
